@@ -67,14 +67,42 @@ def build_harness(profile="dev"):
     return exe
 
 
+def _limit_mem():
+    import resource
+    lim = 24 << 30
+    resource.setrlimit(resource.RLIMIT_AS, (lim, lim))
+
+
 def run_driver(driver, out, tier, seed, profile="dev", extra=None, timeout=3600):
+    """Run a harness driver.  A call that hangs makes the driver record the hang and exit 3; it is then
+    restarted behind the hanging call (generation is deterministic) and its output is appended."""
     exe = build_harness(profile)
-    cmd = [exe, driver, "--out", out, "--tier", tier, "--seed", str(seed)] + (extra or [])
-    p = sh(cmd, cwd=HARNESS, timeout=timeout, check=False)
-    m = re.search(r"HARNESS-DONE driver=\S+ events=(\d+)", p.stdout)
-    if p.returncode != 0 or not m:
+    skip, total, parts = 0, 0, []
+    for attempt in range(200):
+        part = out if attempt == 0 else "%s.part%d" % (out, attempt)
+        cmd = [exe, driver, "--out", part, "--tier", tier, "--seed", str(seed), "--skip", str(skip)] + (extra or [])
+        p = subprocess.run(cmd, cwd=HARNESS, timeout=timeout, stdout=subprocess.PIPE, stderr=subprocess.STDOUT,
+                           text=True, preexec_fn=_limit_mem)
+        parts.append(part)
+        m = re.search(r"HARNESS-DONE driver=\S+ events=(\d+)", p.stdout)
+        h = re.search(r"HARNESS-HANG seq=(\d+) events=(\d+)", p.stdout)
+        if p.returncode == 0 and m:
+            total += int(m.group(1))
+            break
+        if p.returncode == 3 and h:
+            skip = int(h.group(1))
+            total += int(h.group(2))
+            continue
         raise ToolError("driver %s failed (%d):\n%s" % (driver, p.returncode, p.stdout[-4000:]))
-    return int(m.group(1))
+    else:
+        raise ToolError("driver %s: too many hanging calls" % driver)
+    if len(parts) > 1:
+        with open(out, "a") as f:
+            for part in parts[1:]:
+                with open(part) as g:
+                    shutil.copyfileobj(g, f)
+                os.remove(part)
+    return total
 
 
 # --------------------------------------------------------------------------
@@ -344,6 +372,9 @@ class Run:
             print("KNOWN-FINDING: property=%s %s (%d occurrence%s in this run)" %
                   (self.prop, what, n, "" if n == 1 else "s"), flush=True)
         replay = None
+        stale = os.path.join(REPLAYS, "%s-%s-%d.json" % (self.prop, self.tier, self.seed))
+        if not self.failures and os.path.exists(stale):
+            os.remove(stale)
         if self.failures:
             replay = os.path.join(REPLAYS, "%s-%s-%d.json" % (self.prop, self.tier, self.seed))
             with open(replay, "w") as f:
